@@ -7,6 +7,7 @@ package main
 // was writing to, so the far peer observes end-of-stream and the other direction is unblocked; both connections are
 // released on every exit path of the per-connection goroutine.
 //@ func main$1$1 props(C16)
+//@   at io.Copy(backendConn, conn)
 //@   requires conn != nil && backendConn != nil
 //@   ghost copies int = 0
 //@   ghost closedDst int = 0
@@ -18,6 +19,7 @@ package main
 //@     do closedDst = closedDst + 1
 //@   ensures[C16:bridge-closed-when-the-tcp-client-direction-ends] closedDst >= 1
 //@ func main$1$2 props(C16)
+//@   at io.Copy(conn, backendConn)
 //@   requires conn != nil && backendConn != nil
 //@   ghost copies int = 0
 //@   ghost closedDst int = 0
@@ -29,6 +31,7 @@ package main
 //@     do closedDst = closedDst + 1
 //@   ensures[C16:tcp-client-connection-closed-when-the-bridge-direction-ends] closedDst >= 1
 //@ func main$1 props(C16)
+//@   at defer conn.Close()
 //@   requires conn != nil && backendURL != nil
 //@   ghost be ref = nil
 //@   ghost dialOK bool = false
